@@ -137,14 +137,15 @@ class Run:
               % (self.pid, self.tier, len(self.obligations), len(okc), len(known), len(viol), len(self.broken), wall))
         for r in sorted(per_rule):
             print('[%s]   %-28s %4d instance(s)' % (self.pid, r, per_rule[r]))
-        if self.broken:
+        if self.broken and not viol:
             for b in self.broken[:20]:
                 print('ANALYSIS-BROKEN property=%s %s' % (self.pid, b))
-            # violations found are still listed for diagnosis, but not as VIOLATION lines
-            for o in viol[:20]:
-                print('[%s]   (also refuted: %s %s at %s: %s)' % (self.pid, o['rule'], o['instance'], o['where'], o['detail']))
             return 2
         if viol:
+            # a refuted obligation comes from a rule that found its anchor and ran; it stays a violation when some OTHER rule
+            # could not be evaluated (listed as incomplete, for diagnosis)
+            for b in self.broken[:20]:
+                print('[%s] ANALYSIS-INCOMPLETE %s' % (self.pid, b))
             groups = {}
             for o in viol:
                 key = o['rule'] + '|' + json.dumps(o['site'], sort_keys=True)
